@@ -3,8 +3,11 @@ package main
 import (
 	"encoding/hex"
 	"math/big"
+	"net/http"
 	"strconv"
 	"strings"
+
+	"github.com/labstack/echo/v4"
 )
 
 // Sx is the exchange term: integer, byte string or list (see coq/theories/Base/Sx.v).
@@ -66,4 +69,23 @@ func Show(x Sx) string {
 	var sb strings.Builder
 	x.write(&sb)
 	return sb.String()
+}
+
+// recycledContext hands out the instance's context the way Echo.ServeHTTP does: ONE context per instance,
+// Reset for every request - so whatever an earlier request left behind on it (query cache, store, path,
+// handler, response) would be seen by the next one if Reset missed it.
+var recycled = map[*echo.Echo]echo.Context{}
+
+func recycledContext(e *echo.Echo, req *http.Request, w http.ResponseWriter) echo.Context {
+	c, ok := recycled[e]
+	if !ok {
+		if len(recycled) > 256 {
+			recycled = map[*echo.Echo]echo.Context{} // instances of finished cases
+		}
+		c = e.NewContext(req, w)
+		recycled[e] = c
+		return c
+	}
+	c.Reset(req, w)
+	return c
 }
